@@ -17,7 +17,7 @@ fresh process).
 namespace C2pa.C24
 
 def isRead : Op → Bool
-  | .checkProgress _ | .readSettings _ | .buildSettings _ _ | .readTls _ => true
+  | .checkProgress _ | .readSettings _ | .buildSettings _ _ | .readTls _ | .leakyRead _ => true
   | _ => false
 
 theorem set_getElem?_self {α} : ∀ (l : List α) (i : Nat) (x : α), l[i]? = some x → l.set i x = l := by
@@ -41,6 +41,9 @@ theorem read_ops_preserve_state (s : Sys) (op : Op) (h : isRead op = true) : (st
     · next x hx => simp [set_getElem?_self _ _ _ hx]
     · rfl
   · rfl
+  · simp only [step, onTls]; split
+    · next v hv => simp [set_getElem?_self _ _ _ hv]
+    · rfl
   · simp only [step, onTls]; split
     · next v hv => simp [set_getElem?_self _ _ _ hv]
     · rfl
@@ -72,11 +75,12 @@ theorem output_depends_only_on_cell (s s' : Sys) (op : Op) (h : view s op.cell =
     (step s op).2 = (step s' op).2 := by
   cases op with
   | buildSettings t w => rfl
-  | readTls t | setTls t w =>
+  | readTls t | setTls t w | leakyRead t =>
     simp only [Op.cell, view] at h
     simp only [step, onTls]
     cases h1 : s.tls[t]? <;> cases h2 : s'.tls[t]? <;> simp_all
-  | checkProgress d | cancel d | getSigner d w | getResolver d w | readSettings d =>
+  | checkProgress d | cancel d | getSigner d w | getResolver d w | readSettings d | getSignerS d
+  | getResolverS d =>
     simp only [Op.cell, view] at h
     simp only [step, onCtx]
     cases h1 : s.ctxs[d]? <;> cases h2 : s'.ctxs[d]? <;> simp_all
@@ -86,6 +90,69 @@ before on cells independent of `op`, `op` observes what it would observe on the 
 theorem earlier_independent_ops_irrelevant (s : Sys) (pre : List Op) (op : Op)
     (h : IndepOf op pre) : (step (runProg s pre).1 op).2 = (step s op).2 :=
   (step_runProg_comm op pre s h).2.2
+
+/-- **A whole history is irrelevant to a later program** when every operation of the history is
+compatible with every operation of the program: other cells, or safe operations on the same
+cells (reads, checkpoints, lazily initialised signer / resolver). -/
+theorem earlier_compatible_history_irrelevant : ∀ (p pre : List Op) (s : Sys), ProgsCompat pre p →
+    (runProg (runProg s pre).1 p).2 = (runProg s p).2 := by
+  intro p
+  induction p with
+  | nil => intro pre s _; rfl
+  | cons o p ih =>
+    intro pre s h
+    have ho : CompatOf o pre := fun a ha => h a ha o (List.mem_cons_self ..)
+    obtain ⟨k1, _, k3⟩ := step_runProg_compat_comm o pre s ho
+    simp only [runProg]
+    rw [k3, ← k1]
+    rw [ih pre (step s o).1 (fun a ha b hb => h a ha b (List.mem_cons_of_mem _ hb))]
+
+/-- **Repeating a program of safe operations repeats its outputs** — also when the first run
+initialises the lazily created signer / resolver of the context (the second run finds the cell
+filled with the value it would have created itself). -/
+theorem replay_deterministic_shared (p : List Op) (s : Sys) (h : ∀ o ∈ p, sharedSafe o = true) :
+    (runProg (runProg s p).1 p).2 = (runProg s p).2 :=
+  earlier_compatible_history_irrelevant p p s (fun a ha b hb => by simp [compat, h a ha, h b hb])
+
+/-- The operations of a context-based read / sign on context `c`, as the model sees them:
+checkpoints, the context's own settings, the lazily built resolver / signer. -/
+def readProg (c : Nat) : List Op := [.checkProgress c, .readSettings c, .getResolverS c, .checkProgress c]
+def signProg (c : Nat) : List Op :=
+  [.checkProgress c, .readSettings c, .getSignerS c, .getResolverS c, .checkProgress c]
+
+/-- A history operation that cannot disturb context-based operations on `c`: anything except
+cancelling `c` itself or initialising its cells with a caller-chosen value — in particular every
+legacy thread-local settings write, every operation on other contexts, every read / sign on `c`. -/
+def Harmless (c : Nat) : Op → Bool
+  | .cancel d | .getSigner d _ | .getResolver d _ => d != c
+  | _ => true
+
+theorem harmless_compat (c : Nat) (o b : Op) (ho : Harmless c o = true) (hb : b ∈ signProg c ∨ b ∈ readProg c) :
+    compat o b = true := by
+  have hb' : b = .checkProgress c ∨ b = .readSettings c ∨ b = .getSignerS c ∨ b = .getResolverS c := by
+    rcases hb with hb | hb <;> simp [signProg, readProg] at hb <;> grind
+  rcases hb' with rfl | rfl | rfl | rfl <;> cases o <;>
+    simp_all [Harmless, compat, indep, Op.cell, sharedSafe]
+
+/-- **Signing / reading through a context never depends on what ran before in the process**:
+after ANY history of harmless operations (legacy settings writes on any thread, operations on
+other contexts, earlier reads and signs on the same context, settings builders) a context-based
+sign and read give exactly the outputs they give on the initial state. -/
+theorem context_sign_independent_of_history (s : Sys) (pre : List Op) (c : Nat)
+    (h : ∀ o ∈ pre, Harmless c o = true) :
+    (runProg (runProg s pre).1 (signProg c)).2 = (runProg s (signProg c)).2 :=
+  earlier_compatible_history_irrelevant _ pre s
+    (fun a ha b hb => harmless_compat c a b (h a ha) (Or.inl hb))
+
+theorem context_read_independent_of_history (s : Sys) (pre : List Op) (c : Nat)
+    (h : ∀ o ∈ pre, Harmless c o = true) :
+    (runProg (runProg s pre).1 (readProg c)).2 = (runProg s (readProg c)).2 :=
+  earlier_compatible_history_irrelevant _ pre s
+    (fun a ha b hb => harmless_compat c a b (h a ha) (Or.inr hb))
+
+/-- Non-vacuity: a history with legacy writes, a cancel of another context and a sign on the same one. -/
+example : ∀ o ∈ [Op.setTls 0 7, .cancel 1, .getSignerS 0, .getSigner 1 9, .leakyRead 0], Harmless 0 o = true := by
+  decide
 
 /-- Write-once cells never change once set (the lazily created signer of a context stays the
 one first created, whatever runs later on that context). -/
@@ -97,7 +164,9 @@ theorem signer_write_once (s : Sys) (op : Op) (c v : Nat) (x : Ctx)
   | buildSettings t w => exact ⟨x, hx, hs⟩
   | readTls t => exact ⟨x, by simp only [step, onTls]; split <;> exact hx, hs⟩
   | setTls t w => exact ⟨x, by simp only [step, onTls]; split <;> exact hx, hs⟩
-  | checkProgress d | cancel d | getSigner d w | getResolver d w | readSettings d =>
+  | leakyRead t => exact ⟨x, by simp only [step, onTls]; split <;> exact hx, hs⟩
+  | checkProgress d | cancel d | getSigner d w | getResolver d w | readSettings d | getSignerS d
+  | getResolverS d =>
     simp only [step, onCtx]
     by_cases hd : d = c
     · subst hd
